@@ -120,7 +120,7 @@ func sceneCtxMsg(op int, o ReqOpts) {
 	vf.Assume(!panicked)
 
 	post, found := k.GetRequestContext(ctx, id)
-	chk("C09 C16", found, "ctx-kept")
+	chk("C09 C16 C08 C01 C02 C11", found, "ctx-kept")
 	vf.Assume(found)
 	chk("C05", vf.Implies(err == nil, vf.All(rightful, string(target) == string(id), pre.ModuleName == "")), "only-consumer-and-never-a-module-context")
 	chk("C05 C01", vf.All(vf.Balance(signer).Equal(balSigner0), vf.ModuleBalance(types.RequestAccName).Equal(esc0), vf.Balance(s.Consumer).Equal(s.BalC0)), "no-money-moves")
